@@ -1,5 +1,7 @@
 import Exetera.Gen.OperatorTable
 import Exetera.Gen.DtypeNames
+import Exetera.Gen.FieldOpsShape
+import Exetera.Model.Basic
 /-!
   C13 — field operators. The dispatch is table shaped, so it is REGENERATED from `fields.py` on every run
   (`Gen/OperatorTable.lean`); this file gives the tables their meaning:
@@ -84,14 +86,16 @@ structure Store (α : Type) where
 
 def Store.get? {α} (s : Store α) (id : Nat) : Option α := (s.cells.find? (fun c => c.1 == id)).map (·.2)
 
-/-- an operand is a field (by id) or a raw array/scalar -/
+/-- an operand is a field (by id), an ndarray or a scalar (Python number / numpy scalar) -/
 inductive Operand (α : Type) where
   | field (id : Nat)
-  | raw (a : α)
+  | array (a : α)
+  | scalar (a : α)
 
 def Operand.data {α} (s : Store α) : Operand α → Option α
   | .field id => s.get? id
-  | .raw a => some a
+  | .array a => some a
+  | .scalar a => some a
 
 /-- `FieldDataOps._binary_op(session, first, second, function)` -/
 def binaryOp {α} (s : Store α) (f : α → α → α) (first second : Operand α) : Option (Store α × Nat) := do
@@ -113,5 +117,294 @@ def dtypeToStr (ty : String) : Option String :=
 /-- the numeric dtypes a field operator can produce (numpy's bool / signed / unsigned / float results up to 64 bit) -/
 def resultDtypes : List String :=
   ["bool", "int8", "int16", "int32", "int64", "uint8", "uint16", "uint32", "uint64", "float32", "float64"]
+
+/-! ## The operators as Python evaluates them, over the REGENERATED helper bodies (`Gen/FieldOpsShape.lean`)
+
+    `left <op> right`  →  Python's operator protocol (forward dunder of a Field on the left; for an ndarray / scalar on the left
+    numpy's `__array_ufunc__ = None` rule makes it return NotImplemented and Python calls the REFLECTED dunder of the field on the
+    right — for a comparison that is the mirrored comparison)  →  `cls.<dunder>` (`Gen.dunderTable`)  →  `FieldDataOps.<method>`
+    (`Gen.methodTable`)  →  the body of `_binary_op` / `_unary_op` / `numeric_divmod` (`Gen.helperProgs`, interpreted by `step`).
+
+    numpy is the opaque record `Numpy α`; a field is a record of the world (class, declared dtype name, data). -/
+
+/-- numpy, opaque. `α` = ndarrays and scalars. -/
+structure Numpy (α : Type) where
+  /-- `sym(args…)` for a single-valued `operator.*` / `np.*` symbol -/
+  call : String → List α → α
+  /-- `r1, r2 = sym(args…)` for a pair-valued symbol (`np.divmod`) -/
+  call2 : String → List α → α × α
+  /-- `r.dtype`, identified by how the source spells the scalar type it compares equal to (`bool`, `np.int8`, …; see `npSymbol`) -/
+  dtypeOf : α → String
+  /-- `write` onto a field that already holds data appends (`write_part`) -/
+  append : α → α → α
+  /-- `np.zeros(0, dtype)`: what `data[:]` of a memory field returns before anything was written -/
+  zeros0 : String → α
+  /-- the values h5py stores when an array is written into a dataset of the named dtype (`DataWriter.write(…, dtype=nformat)`) -/
+  cast : String → α → α
+
+/-- a field object: its class, the dtype name it was declared with (`_nformat`), its data (`none`: nothing written yet) -/
+structure FieldRec (α : Type) where
+  cls : String
+  dtype : String
+  data : Option α
+  deriving DecidableEq, Repr
+
+/-- the heap: field objects by identity, and the dataframes (`_columns`: name ↦ field, in creation order).
+    Both maps are association lists read front to back, so an update is a cons that shadows the older entry. -/
+structure World (α : Type) where
+  fields : List (Nat × FieldRec α)
+  next : Nat
+  frames : List (Nat × List (String × Nat))
+
+def World.get? {α} (w : World α) (id : Nat) : Option (FieldRec α) := (w.fields.find? (fun c => c.1 == id)).map (·.2)
+def World.frame? {α} (w : World α) (df : Nat) : Option (List (String × Nat)) := (w.frames.find? (fun c => c.1 == df)).map (·.2)
+def World.put {α} (w : World α) (id : Nat) (r : FieldRec α) : World α := { w with fields := (id, r) :: w.fields }
+/-- a new object: its identity is one no existing object has -/
+def World.alloc {α} (w : World α) (r : FieldRec α) : World α := { w with fields := (w.next, r) :: w.fields, next := w.next + 1 }
+/-- identities are handed out in order: every live object is older than `next` -/
+def World.wf {α} (w : World α) : Prop := ∀ c ∈ w.fields, c.1 < w.next
+
+/-- a local variable of a helper: an array / scalar, or a reference to a field -/
+inductive Val (α : Type) where
+  | arr (a : α)
+  | fld (id : Nat)
+  deriving DecidableEq, Repr
+
+def Operand.val {α} : Operand α → Val α
+  | .field id => .fld id
+  | .array a => .arr a
+  | .scalar a => .arr a
+
+/-- `field.data[:]` -/
+def readData {α} (np : Numpy α) (w : World α) (id : Nat) : Except Err α :=
+  match w.get? id with
+  | none => .error (.other "dangling field reference")
+  | some r => .ok (match r.data with | some a => a | none => np.zeros0 r.dtype)
+
+/-- `x.data[:] if isinstance(x, Field) else x` -/
+def unwrapVal {α} (np : Numpy α) (w : World α) : Val α → Except Err α
+  | .arr a => .ok a
+  | .fld id => readData np w id
+
+/-- the arguments handed to numpy must be arrays / scalars -/
+def getArrs {α} (env : List (Val α)) : List Nat → Except Err (List α)
+  | [] => .ok []
+  | k :: ks =>
+    match env[k]? with
+    | some (.arr a) => (match getArrs env ks with | .ok r => .ok (a :: r) | .error e => .error e)
+    | some (.fld _) => .error (.typeError "a Field object was handed to numpy")
+    | none => .error (.other "unbound slot")
+
+/-- the values returned must be fields -/
+def getFlds {α} (env : List (Val α)) : List Nat → Except Err (List Nat)
+  | [] => .ok []
+  | k :: ks =>
+    match env[k]? with
+    | some (.fld id) => (match getFlds env ks with | .ok r => .ok (id :: r) | .error e => .error e)
+    | some (.arr _) => .error (.other "an array was returned where the model expects a field")
+    | none => .error (.other "unbound slot")
+
+/-- one statement of a helper body. `fn` is the symbol bound to the helper's `function` parameter. -/
+def step {α} (np : Numpy α) (fn : String) (w : World α) (env : List (Val α)) : Gen.FInstr → Except Err (World α × List (Val α))
+  | .unwrap src =>
+    match env[src]? with
+    | none => .error (.other "unbound slot")
+    | some v => (match unwrapVal np w v with | .ok a => .ok (w, env ++ [.arr a]) | .error e => .error e)
+  | .apply f args nres =>
+    match getArrs env args with
+    | .error e => .error e
+    | .ok xs =>
+      let sym := match f with | some s => s | none => fn
+      if nres == 1 then .ok (w, env ++ [.arr (np.call sym xs)])
+      else if nres == 2 then .ok (w, env ++ [.arr (np.call2 sym xs).1, .arr (np.call2 sym xs).2])
+      else .error (.typeError "cannot unpack")
+  | .newField cls src =>
+    match env[src]? with
+    | some (.arr r) =>
+      (match dtypeToStr (np.dtypeOf r) with
+       | none => .error (.valueError "Unsupported dtype")                       -- the final `raise` of dtype_to_str
+       | some n => .ok (w.alloc { cls := cls, dtype := n, data := none }, env ++ [.fld w.next]))
+    | some (.fld _) => .error (.other "attribute_error")                         -- a Field has no `.dtype`
+    | none => .error (.other "unbound slot")
+  | .write f v =>
+    match env[f]?, env[v]? with
+    | some (.fld id), some (.arr r) =>
+      (match w.get? id with
+       | none => .error (.other "dangling field reference")
+       | some rec => .ok (w.put id { rec with data := some (match rec.data with | none => r | some d => np.append d r) }, env))
+    | _, _ => .error (.other "attribute_error")
+  | .ret _ => .ok (w, env)
+
+/-- a helper body: statements in order up to the `return` -/
+def runProg {α} (np : Numpy α) (fn : String) : List Gen.FInstr → World α → List (Val α) → Except Err (World α × List Nat)
+  | [], _, _ => .error (.other "fell off the end of a helper (returns None)")
+  | .ret vs :: _, w, env => (match getFlds env vs with | .ok ids => .ok (w, ids) | .error e => .error e)
+  | i :: rest, w, env =>
+    match step np fn w env i with
+    | .ok (w', env') => runProg np fn rest w' env'
+    | .error e => .error e
+
+def lookupProg (h : String) : Option (Nat × List Gen.FInstr) :=
+  (Gen.helperProgs.find? (fun r => r.1 == h)).map (·.2)
+
+/-- `xs[k]` for each `k` -/
+def pick {β} (xs : List β) : List Nat → Option (List β)
+  | [] => some []
+  | k :: ks => match xs[k]?, pick xs ks with | some x, some r => some (x :: r) | _, _ => none
+
+/-- the static route of `cls.<d>`: (the helper body that runs, the symbol it applies, for each operand parameter of that body
+    which argument of the dunder it receives: 0 = `self`, 1 = the other operand).
+    A method the table marks `direct` (`numeric_divmod`) is its own body and names its symbol itself. -/
+def routeOf (cls d : String) : Option (String × String × List Nat) := do
+  let (m, dOrd) ← lookupDunder cls d
+  let (sym, via, mOrd) ← lookupMethod m
+  if via == "direct" then pure (m, sym, dOrd)
+  else
+    let ord ← route mOrd dOrd
+    pure (via, sym, ord)
+
+/-- `cls.<d>(self, other)` / `cls.<d>(self)`: `args = [self, other]` or `[self]` -/
+def callDunder {α} (np : Numpy α) (w : World α) (cls d : String) (args : List (Val α)) : Except Err (World α × List Nat) :=
+  match routeOf cls d with
+  | none => .error (.typeError "unsupported operand type(s)")
+  | some (h, sym, ord) =>
+    match pick args ord, lookupProg h with
+    | some args', some (nops, prog) =>
+      if args'.length == nops then runProg np sym prog w args' else .error (.typeError "wrong number of arguments")
+    | _, _ => .error (.other "attribute_error")
+
+/-- Python's data model: `x op y` tries `type(x).<first>(x, y)`; when that returns NotImplemented, `type(y).<second>(y, x)`.
+    For a comparison the second method is the MIRRORED comparison. -/
+def pyDunders : String → Option (String × String)
+  | "+" => some ("__add__", "__radd__") | "-" => some ("__sub__", "__rsub__") | "*" => some ("__mul__", "__rmul__")
+  | "/" => some ("__truediv__", "__rtruediv__") | "//" => some ("__floordiv__", "__rfloordiv__")
+  | "%" => some ("__mod__", "__rmod__") | "divmod" => some ("__divmod__", "__rdivmod__")
+  | "&" => some ("__and__", "__rand__") | "^" => some ("__xor__", "__rxor__") | "|" => some ("__or__", "__ror__")
+  | "<" => some ("__lt__", "__gt__") | "<=" => some ("__le__", "__ge__") | "==" => some ("__eq__", "__eq__")
+  | "!=" => some ("__ne__", "__ne__") | ">" => some ("__gt__", "__lt__") | ">=" => some ("__ge__", "__le__")
+  | _ => none
+
+/-- `~x` and the method `x.logical_not()` -/
+def pyUnary : String → Option String
+  | "~" => some "__invert__" | "logical_not" => some "logical_not"
+  | _ => none
+
+/-- the property's right-hand side: the numpy / operator symbol of each operator -/
+def opSymbol : String → Option String
+  | "+" => some "operator.add" | "-" => some "operator.sub" | "*" => some "operator.mul" | "/" => some "operator.truediv"
+  | "//" => some "operator.floordiv" | "%" => some "operator.mod" | "divmod" => some "np.divmod"
+  | "&" => some "operator.and_" | "^" => some "operator.xor" | "|" => some "operator.or_"
+  | "<" => some "operator.lt" | "<=" => some "operator.le" | "==" => some "operator.eq" | "!=" => some "operator.ne"
+  | ">" => some "operator.gt" | ">=" => some "operator.ge"
+  | "~" => some "operator.invert" | "logical_not" => some "np.logical_not"
+  | _ => none
+
+/-- the comparison that gives the same answer with its operands exchanged -/
+def mirrorSym (s : String) : String :=
+  if s == "operator.lt" then "operator.gt" else if s == "operator.gt" then "operator.lt"
+  else if s == "operator.le" then "operator.ge" else if s == "operator.ge" then "operator.le" else s
+
+/-- the single-result binary operators, `divmod`, the unary ones -/
+def binOps : List String := ["+", "-", "*", "/", "//", "%", "&", "^", "|", "<", "<=", "==", "!=", ">", ">="]
+def cmpOps : List String := ["<", "<=", "==", "!=", ">", ">="]
+def unOps : List String := ["~", "logical_not"]
+
+/-- does class `cls` support operator `op` (both the forward and the reflected form)? -/
+def supportsOp (cls op : String) : Bool :=
+  match pyDunders op with
+  | some (f, r) => (supported cls).contains f && (supported cls).contains r
+  | none => false
+
+/-- numpy's `binop_should_defer` for a right operand whose class is `cls` (`ndarray.__op__` and numpy scalars return NotImplemented;
+    Python numbers always do): `__array_ufunc__` is defined and is None, or it is not defined and `__array_priority__` exceeds the
+    ndarray's 0. The attributes are REGENERATED from the class bodies (`Gen.arrayProtocol`). -/
+def defers (cls : String) : Bool :=
+  match Gen.arrayProtocol.find? (fun r => r.1 == cls) with
+  | some (_, ufunc, _, prioPos) => ufunc == "None" || (ufunc == "absent" && prioPos)
+  | none => false
+
+def World.classOf {α} (w : World α) (id : Nat) : Option String := (w.get? id).map (·.cls)
+
+/-- `left <op> right` for a binary operator or `divmod(left, right)`, at least one side a field.
+    Returns the new world and the identities of the returned field(s). -/
+def opBinary {α} (np : Numpy α) (w : World α) (op : String) (l r : Operand α) : Except Err (World α × List Nat) :=
+  match pyDunders op with
+  | none => .error (.other "not a binary operator")
+  | some (fwd, refl) =>
+    match l, r with
+    | .field id, _ =>
+      (match w.classOf id with
+       | none => .error (.other "dangling field reference")
+       | some cls => callDunder np w cls fwd [.fld id, r.val])
+    | _, .field id =>
+      (match w.classOf id with
+       | none => .error (.other "dangling field reference")
+       | some cls =>
+         if defers cls then callDunder np w cls refl [.fld id, l.val]
+         else .error (.other "ndarray_broadcasts_over_field"))      -- as before ff6219e: an object array of fields / AttributeError
+    | _, _ => .error (.other "no field operand")
+
+/-- `~f` / `f.logical_not()` -/
+def opUnary {α} (np : Numpy α) (w : World α) (op : String) (id : Nat) : Except Err (World α × List Nat) :=
+  match pyUnary op with
+  | none => .error (.other "not a unary operator")
+  | some d =>
+    match w.classOf id with
+    | none => .error (.other "dangling field reference")
+    | some cls => callDunder np w cls d [.fld id]
+
+/-- `divmod(left, right)` -/
+def opDivmod {α} (np : Numpy α) (w : World α) (l r : Operand α) : Except Err (World α × List Nat) := opBinary np w "divmod" l r
+
+/-- the class of the field whose dunder Python ends up calling: the left operand when it is a field, else the right one -/
+def dispatchClass {α} (w : World α) : Operand α → Operand α → Option String
+  | .field id, _ => w.classOf id
+  | _, .field id => w.classOf id
+  | _, _ => none
+
+def Operand.isField {α} : Operand α → Bool
+  | .field _ => true
+  | _ => false
+
+/-- which helper body serves a binary operator -/
+def helperOf (op : String) : String := if op == "divmod" then "numeric_divmod" else "_binary_op"
+
+def supportsUnary (cls op : String) : Bool :=
+  match pyUnary op with
+  | some d => (supported cls).contains d
+  | none => false
+
+/-- what the property names as the operands' underlying arrays -/
+def Operand.under {α} (np : Numpy α) (w : World α) (o : Operand α) : Except Err α := unwrapVal np w o.val
+
+/-- the class of field `create_like(dataframe, name)` creates for a source of class `cls` (`Gen.createLikeRoute`;
+    `numeric_field_create_like`: `group.create_numeric(name, nformat, ts)` → a NumericField of the source's `_nformat`).
+    Only the numeric route is modelled: every operator result is a NumericMemField. -/
+def createLikeTarget (cls : String) : Option String :=
+  match (Gen.createLikeRoute.find? (fun r => r.1 == cls)).map (·.2) with
+  | some m => if m == "numeric_field_create_like" then some "NumericField" else none
+  | none => none
+
+/-- `df[name] = field` (`DataFrame.__setitem__`, non-indexed path): `nfield = field.create_like(self, name)` (ValueError when the
+    name exists — nothing is written), `nfield.data.write(field.data[:])`, `self._columns[name] = nfield`. -/
+def setItem {α} (np : Numpy α) (w : World α) (df : Nat) (name : String) (src : Nat) : Except Err (World α) :=
+  match w.frame? df, w.get? src with
+  | some cols, some r =>
+    (match createLikeTarget r.cls with
+     | none => .error (.other "unmodelled:create_like")
+     | some tcls =>
+       if cols.any (fun c => c.1 == name) then .error (.valueError "Field already exists in group")
+       else
+         let a := match r.data with | some a => a | none => np.zeros0 r.dtype
+         let w1 := w.alloc { cls := tcls, dtype := r.dtype, data := none }
+         let w2 := w1.put w.next { cls := tcls, dtype := r.dtype, data := some (np.cast r.dtype a) }
+         .ok { w2 with frames := (df, cols ++ [(name, w.next)]) :: w2.frames })
+  | _, _ => .error (.other "dangling reference")
+
+/-- `df[name]` -/
+def World.column? {α} (w : World α) (df : Nat) (name : String) : Option (FieldRec α) :=
+  match w.frame? df with
+  | none => none
+  | some cols => (match cols.find? (fun c => c.1 == name) with | some c => w.get? c.2 | none => none)
 
 end Exetera.FieldOps
